@@ -4,6 +4,10 @@
 // meta "qbits" and lines built by bmline.Text2BasmLine, handed to
 // BmQSimulator.QasmToBmMatrices, then RunSoftwareSimulation); the expected
 // unitary comes from ref.go.
+//
+// prop is a pure function of the case. The only timer is the watchdog in compile(),
+// reached solely by Probe cases that contain a `nextop` line (the known/ replay
+// of the recorded hang); generated cases with `nextop` are counted and not run.
 package c14
 
 import (
@@ -20,24 +24,6 @@ import (
 	"pgregory.net/rapid"
 	"verifharness/pbt"
 )
-
-// Gate is one circuit line.
-type Gate struct {
-	Op    string // operation text exactly as written in the circuit (any case)
-	Q     []int  // qubit arguments as indices into Case.Qubits, in argument order, distinct
-	Angle string // exact text of the angle argument ("" for the fixed gates)
-	Sep   bool   // a `nextop` line is placed before this gate
-}
-
-// Case is a circuit.
-type Case struct {
-	Qubits []string // declared qubit names, first = most significant
-	Zero   bool     // the README-style `zero <all qubits>` line opens the circuit
-	Gates  []Gate
-	// Probe: do not exclude the recorded defect classes; evaluate and report them with
-	// their signature (used by the replay files under known/, never generated).
-	Probe bool
-}
 
 // ---------------------------------------------------------------------------
 // generator
@@ -631,7 +617,9 @@ const rule = "n in 1..5 named qubits (first declared = most significant); 1..12 
 	"{0, pi/2, pi, -pi/3, random in [-7,7]}), any letter case, distinct qubit arguments in any order and at any distance, optional README-style `zero` line, " +
 	"optional `nextop` separators; oracle = own textbook tables embedded by bit manipulation (complex128); checks: product of emitted matrices = U_ref entrywise within " +
 	"1e-4*len(gates), every emitted matrix M has M*M^dagger = I within 1e-4, RunSoftwareSimulation maps every basis state to the column of U_ref within 1e-4*len(gates); " +
-	"global phase not quotiented; non-trivial = at least one two-qubit gate whose arguments are non-adjacent or in reversed order; distinct = distinct case JSON"
+	"global phase not quotiented; non-trivial = at least one two-qubit gate whose arguments are non-adjacent or in reversed order; distinct = distinct case JSON; " +
+	"excluded (counted, recorded defects): D-C14-nextop-hang = circuit contains a `nextop` line (not executed: the call never returns), " +
+	"D-C14-displaced-arg = a layer reaches a two-qubit gate after an earlier two-qubit gate of the same layer moved one of its arguments (executed; excluded only when it fails)"
 
 var Props = []*pbt.Entry{
 	pbt.Def("circuit", rule, gen, prop),
